@@ -17,7 +17,7 @@ func init() {
 	register("C16", checkC16)
 	describe("C16", Meta{
 		Technique: "typestate/dominance rules on go/ssa over every store to Conproc.Op and every Arch.Assembler call (sorted-before-store, frozen-after-assemble), per-iteration append counting for the opcode collection loops, plus the topology ownership/lock-step/index-space rules over the front-ends' bond-graph construction code",
-		Claim:     "Decides structural clauses of C16: (a) every site that builds a processor's opcode list stores a slice that was sorted by name (sort.Sort(ByName(v)) dominates the store of the same SSA value) and whose collection loop appends each registry element at most once; (b) after a program has been assembled against an architecture, no encoding-relevant field of that architecture (Op, R, N, M, L, O, Rsize, WordSize, Modes, Shared_constraints) is stored again on a path to the machine being shipped; (c) front-ends build bond graphs only through the edit API or on machines they allocate, with Links made in step with Internal_inputs. Necessary conditions for 'every emitted machine is well formed'; adequacy of R/N/M/O for the program (Needed_bits arithmetic) is not decided.",
+		Claim:     "Decides structural clauses of C16: (a) every site that builds a processor's opcode list stores a slice that was sorted by name (sort.Sort(ByName(v)) dominates the store of the same SSA value) and whose collection loop appends each registry element at most once; (b) after a program has been assembled against an architecture, no encoding-relevant field of that architecture (Op, R, N, M, L, O, Rsize, WordSize, Modes, Shared_constraints) is stored again on a path to the machine being shipped; (c) front-ends build bond graphs only through the edit API or on machines they allocate, with Links made in step with Internal_inputs. PARALLEL: a front-end loop that numbers the elements it creates with its own index grows the machine's list exactly once on every path of an iteration. Necessary conditions for 'every emitted machine is well formed'; adequacy of R/N/M/O for the program (Needed_bits arithmetic) is not decided.",
 		Note:      "Copies of another machine's Op (make+copy) and loaders (Dejsoner) are exempt from (a) by construction, not by name list: the exemption is 'the stored slice is made with the length of another Conproc.Op'.",
 		DesignRef: "DESIGN.md §2 C16",
 	})
@@ -199,6 +199,7 @@ func checkC16(r *core.Run) {
 		})
 	}
 	r.Count("opcode_collection_loops", nLoops)
+	c16Parallel(r, prog)
 
 	// ---- (b) frozen after assemble
 	nAsm := 0
@@ -519,4 +520,158 @@ func opListSorted(r *core.Run, prog *core.Program, prop string, opField *types.V
 	}
 	r.Count("conproc_op_store_sites", nSites)
 
+}
+
+
+// c16Parallel (C16/PARALLEL): a front-end loop `for i, x := range list` that grows one of the
+// machine's lists (Add_shared_objects, Add_processor, Add_input, Add_output, append to a Bondmachine
+// field) and uses i as the position of the new element (records it, prints it, passes it on) relies on
+// the machine list growing by exactly one element per iteration. A path through the body that skips the
+// growth (a `continue`, a condition) — or grows twice — makes every later i point at another element, or
+// past the end, of the machine's list.
+func c16Parallel(r *core.Run, prog *core.Program) {
+	growth := map[string]bool{"Add_shared_objects": true, "Add_processor": true, "Add_input": true, "Add_output": true}
+	n := 0
+	for _, rel := range []string{"pkg/basm", "pkg/bondgo", "pkg/neuralbond", "pkg/bmbuilder", "pkg/bmqsim"} {
+		pk := prog.Pkg(rel)
+		if pk == nil {
+			continue
+		}
+		info := pk.TypesInfo
+		isBM := func(t types.Type) bool {
+			if p, ok := t.(*types.Pointer); ok {
+				t = p.Elem()
+			}
+			nm, ok := t.(*types.Named)
+			return ok && nm.Obj().Name() == "Bondmachine" && nm.Obj().Pkg() != nil && strings.HasSuffix(nm.Obj().Pkg().Path(), "pkg/bondmachine")
+		}
+		// growth event of a statement/expression: its kind ("" if none)
+		growthKind := func(m ast.Node) string {
+			switch x := m.(type) {
+			case *ast.CallExpr:
+				if sel, ok := ast.Unparen(x.Fun).(*ast.SelectorExpr); ok && growth[sel.Sel.Name] {
+					if t := info.TypeOf(sel.X); t != nil && isBM(t) {
+						return sel.Sel.Name
+					}
+				}
+			case *ast.AssignStmt:
+				if len(x.Lhs) == 1 && len(x.Rhs) == 1 {
+					if call, ok := x.Rhs[0].(*ast.CallExpr); ok {
+						if id, ok := call.Fun.(*ast.Ident); ok && id.Name == "append" {
+							if sel, ok := ast.Unparen(x.Lhs[0]).(*ast.SelectorExpr); ok {
+								if t := info.TypeOf(sel.X); t != nil && isBM(t) && core.FieldOf(info, sel) != nil {
+									return "append:" + sel.Sel.Name
+								}
+							}
+						}
+					}
+				}
+			}
+			return ""
+		}
+		core.FuncDecls(pk, func(_ *ast.File, fd *ast.FuncDecl) {
+			k := 0
+			ast.Inspect(fd.Body, func(nd ast.Node) bool {
+				rs, ok := nd.(*ast.RangeStmt)
+				if !ok {
+					return true
+				}
+				kid, ok := rs.Key.(*ast.Ident)
+				if !ok || kid.Name == "_" {
+					return true
+				}
+				kobj := info.ObjectOf(kid)
+				// does the body use the key (other than to index the ranged list itself)?
+				usesKey := false
+				kinds := map[string]bool{}
+				ast.Inspect(rs.Body, func(m ast.Node) bool {
+					if id, ok := m.(*ast.Ident); ok && info.ObjectOf(id) == kobj {
+						usesKey = true
+					}
+					if g := growthKind(m); g != "" {
+						kinds[g] = true
+					}
+					return true
+				})
+				if !usesKey || len(kinds) == 0 {
+					return true
+				}
+				// a separate position counter advanced in the body (no++) is what numbers the new
+				// elements; the loop key then only names the source element
+				ownCounter := false
+				ast.Inspect(rs.Body, func(m ast.Node) bool {
+					if inc, ok := m.(*ast.IncDecStmt); ok && inc.Tok == token.INC {
+						if id, ok := ast.Unparen(inc.X).(*ast.Ident); ok && info.ObjectOf(id) != kobj {
+							ownCounter = true
+						}
+					}
+					return true
+				})
+				if ownCounter {
+					return true
+				}
+				var ks []string
+				for g := range kinds {
+					ks = append(ks, g)
+				}
+				sort.Strings(ks)
+				for _, g := range ks {
+					k++
+					n++
+					pi := &pinterp{info: info, noReturn: noReturnCall(info), noFlags: true}
+					pi.events = func(node ast.Node) []pevent {
+						var evs []pevent
+						ast.Inspect(node, func(m ast.Node) bool {
+							switch m.(type) {
+							case *ast.FuncLit:
+								return false
+							case *ast.BlockStmt:
+								return m == node
+							}
+							if growthKind(m) == g {
+								evs = append(evs, pevent{d: +1, pos: m.Pos()})
+							}
+							return true
+						})
+						return evs
+					}
+					pi.containsEvent = func(ast.Node) bool { return false }
+					pi.onError = func(token.Pos, pstate, string) {}
+					undec := ""
+					pi.undecided = func(_ token.Pos, what string) { undec = what }
+					// error returns end the whole construction: not an outcome of interest
+					pi.dropReturn = func(*ast.ReturnStmt) bool { return true }
+					in := pset{}
+					in.add(pstate{flags: map[types.Object]bool{}})
+					out := pi.block(rs.Body.List, in)
+					ends := pset{}
+					ends.addAll(out.normal)
+					for _, ss := range out.cont {
+						ends.addAll(ss)
+					}
+					counts := map[int]bool{}
+					for _, st := range ends {
+						counts[st.n] = true
+					}
+					inst := fmt.Sprintf("C16/PARALLEL:%s:loop%d:%s", core.FuncKey(pk, fd), k, g)
+					pos := prog.Pos(rs.Pos())
+					switch {
+					case undec != "":
+						r.Undecided("C16/PARALLEL", inst, pos, undec)
+					case len(counts) == 1 && counts[1]:
+						r.OK("C16/PARALLEL", inst, pos, "the machine list grows by exactly one element on every path of an iteration")
+					default:
+						var cs []string
+						for c := range counts {
+							cs = append(cs, fmt.Sprint(c))
+						}
+						sort.Strings(cs)
+						r.Violation("C16/PARALLEL", inst, pos, fmt.Sprintf("%s numbers the elements it creates with the loop index %s, but one iteration of the loop performs %s [%s] time(s) depending on the path: as soon as an iteration adds nothing (or two elements), every later index recorded here refers to another element of the machine's list, or to none — links, attachments and constraints built from it point at the wrong object", core.FuncKey(pk, fd), kid.Name, g, strings.Join(cs, " or ")))
+					}
+				}
+				return true
+			})
+		})
+	}
+	r.Count("index_parallel_growth_loops", n)
 }
